@@ -11,7 +11,7 @@ import asyncio
 from contextvars import ContextVar
 from typing import Any
 
-from .util import Opaque, canon, digest, mix
+from .util import Opaque, Versioned, canon, digest, mix
 
 # Run label of the graph execution the current code belongs to: a tuple of
 # (graph name, digest of that run's input values, ordinal among equal digests).
@@ -263,6 +263,8 @@ class Runtime:
                 # accumulator that does NOT mutate: returns its list argument plus one new entry
                 p = spec["beh_param"]
                 vals.append(list(args[p]) + [mix(tag, "app", sorted((k, canon(v)) for k, v in args.items() if k != p))])
+            elif beh == "versioned" and j == 0:
+                vals.append(Versioned(mix(tag, "ver", [(k, canon(v)) for k, v in items])))
             elif beh == "opaque" and j == 0:
                 vals.append(Opaque(mix(tag, "opq", [(k, canon(v)) for k, v in items])))
             elif beh == "const":
